@@ -5020,3 +5020,105 @@ mutant('C20-inlined-word-to-path-skips-long-words', 'C20',
          "                pathlib.Path(word.replace('\"', '').replace(\n"
          "                    \"'\", ''))\n")],
        'R-SAMEVAL/word-tested-as-is', 'sanitize_paths')
+
+# ----------------------------------------------------------------------
+# round 17
+# ----------------------------------------------------------------------
+mutant('C04-sets-serialised-unsorted-copy', 'C04',
+       'clean_for_json serialises a set through sorted() whose result is '
+       'dropped',
+       [(_UU, "        new_data = list(data)\n"
+         "        new_data.sort()\n"
+         "        return clean_for_json(new_data)\n",
+         "        new_data = list(data)\n"
+         "        sorted(new_data)\n"
+         "        return clean_for_json(new_data)\n")],
+       'R-TAINT', 'clean_for_json')
+twin('C04-twin-sets-serialised-through-sorted', 'C04',
+     'clean_for_json serialises a set as sorted(data)',
+     [(_UU, "        new_data = list(data)\n"
+       "        new_data.sort()\n"
+       "        return clean_for_json(new_data)\n",
+       "        return clean_for_json(sorted(data))\n")])
+mutant('C09-copy-slices-count-whole-blocks', 'C09',
+       'the HDF5 copy helper cuts an axis into floor(n / block) blocks',
+       [(_H5U, "        for i0 in range(0, this_n, chosen):\n"
+         "            i1 = min(i0+chosen, this_n)\n"
+         "            these_slices.append(slice(i0, i1, 1))\n",
+         "        for i_b in range(this_n//chosen):\n"
+         "            these_slices.append(\n"
+         "                slice(i_b*chosen, (i_b+1)*chosen, 1))\n")],
+       'R-TILE/whole-axis', '_get_slices_for_copy')
+twin('C09-twin-copy-slices-count-ceil-blocks', 'C09',
+     'the HDF5 copy helper cuts an axis into ceil(n / block) clamped '
+     'blocks',
+     [(_H5U, "        for i0 in range(0, this_n, chosen):\n"
+       "            i1 = min(i0+chosen, this_n)\n"
+       "            these_slices.append(slice(i0, i1, 1))\n",
+       "        for i_b in range(int(np.ceil(this_n/chosen))):\n"
+       "            these_slices.append(\n"
+       "                slice(i_b*chosen, min((i_b+1)*chosen, this_n), 1))\n")])
+mutant('C13-shuffle-copies-pointer-run-from-source-window', 'C13',
+       'shuffle_csr_h5ad_rows copies the pointers of two rows at a time '
+       'from a source window',
+       [(_AU, "                dst_indptr[new_r] = dst0\n"
+         "                dst_x['indices'][dst0:dst1] = "
+         "src_x['indices'][src0:src1]\n",
+         "                n_run = 2 if src1 == src_indptr[-1] else 1\n"
+         "                dst_indptr[new_r:new_r+n_run] = (\n"
+         "                    src_indptr[old_r:old_r+n_run] + (dst0-src0))\n"
+         "                dst_x['indices'][dst0:dst1] = "
+         "src_x['indices'][src0:src1]\n")],
+       'R-PERM/permuted-row-window', 'shuffle_csr_h5ad_rows')
+mutant('C14-markers-published-before-transposition', 'C14',
+       'the reference-marker file is moved to the requested path before '
+       'its transposition',
+       [(_MK, "    tmp_dir = pathlib.Path(tempfile.mkdtemp(dir=tmp_dir))\n\n"
+         "    with h5py.File(h5_path, 'a') as dst:\n"
+         "        dst.create_group('sparse_by_gene')\n",
+         "    tmp_dir = pathlib.Path(tempfile.mkdtemp(dir=tmp_dir))\n\n"
+         "    if dst_path is not None:\n"
+         "        h5_path = shutil.move(src=h5_path, dst=dst_path)\n\n"
+         "    with h5py.File(h5_path, 'a') as dst:\n"
+         "        dst.create_group('sparse_by_gene')\n"),
+        (_MK, "        tmp_dir,\n        n_processors=1):\n    \"\"\"\n"
+         "    Add the \"sparse_by_gene\" representation",
+         "        tmp_dir,\n        n_processors=1,\n"
+         "        dst_path=None):\n    \"\"\"\n"
+         "    Add the \"sparse_by_gene\" representation"),
+        (_PMK, "        n_processors=n_processors)\n"
+         "    print(f'===== transposition took",
+         "        n_processors=n_processors,\n"
+         "        dst_path=output_path)\n"
+         "    print(f'===== transposition took")],
+       'R-MUST/publish-after-drain', 'add_sparse_by_gene_markers_to_file')
+mutant('C15-tree-read-back-through-key-selection', 'C15',
+       'from_str keeps the level tables, the hierarchy and the metadata '
+       'only',
+       [(_TT, "        return cls(\n"
+         "            data=json.loads(serialized_dict))\n",
+         "        parsed = json.loads(serialized_dict)\n"
+         "        keep = set(parsed['hierarchy'])\n"
+         "        keep.update(('hierarchy', 'metadata'))\n"
+         "        return cls(\n"
+         "            data={k: v for k, v in parsed.items() if k in keep})\n")],
+       'R-AGREE/serialised-tree-complete', 'from_str')
+twin('C15-twin-tree-read-back-through-a-local', 'C15',
+     'from_str parses the text into a local first',
+     [(_TT, "        return cls(\n"
+       "            data=json.loads(serialized_dict))\n",
+       "        parsed = json.loads(serialized_dict)\n"
+       "        return cls(data=parsed)\n")])
+mutant('C18-reconciliation-judges-group-content', 'C18',
+       'the reconciliation counts a group without a reference dataset '
+       'entry as missing',
+       [(_TU, "            if parent_grp not in markers:\n",
+         "            if parent_grp not in markers or len(\n"
+         "                    markers[parent_grp]['reference']) == 0:\n")],
+       'R-AGREE/reconcile-by-presence', 'reconcile_taxonomy_and_markers')
+mutant('C01-output-blob-cleaned-wholesale', 'C01',
+       'run_mapping replaces the output blob by a cleaned copy of itself',
+       [(_FSM, "        output[\"config\"] = safe_config\n",
+         "        output[\"config\"] = safe_config\n"
+         "        output = clean_for_json(output)\n")],
+       'R-SAMEVAL/results-written-as-computed', 'run_mapping')
